@@ -171,14 +171,17 @@ class CachingLoaderMixin(ABC, _CachingLoaderProtocol):
         if not self.namespace_key:
             return name
 
+        # A namespace and a name are joined with a character that neither will contain,
+        # so namespace "a" with name "b/c" is not namespace "a/b" with name "c", and
+        # neither is the name "a/b/c" without a namespace.
         # Args take priority over context variables.
         with suppress(KeyError):
-            return f"{args[self.namespace_key]}/{name}"
+            return f"{args[self.namespace_key]}\0{name}"
 
         if context is None:
             return name
 
         try:
-            return f"{context.globals[self.namespace_key]}/{name}"
+            return f"{context.globals[self.namespace_key]}\0{name}"
         except KeyError:
             return name
